@@ -296,14 +296,15 @@ def changesets(state, shape, prs, scenario):
     for p in prs:
         for t in targets(shape, p.dst):
             if scenario == 'Q':
-                out[(p.id, t)] = state[qw_name(p, shape, t)]
+                if qw_name(p, shape, t) in state:        # (a configuration may lack some queue branches)
+                    out[(p.id, t)] = state[qw_name(p, shape, t)]
             else:
                 out[(p.id, t)] = state[p.src]
     return out
 
 
 def all_or_none_cond(repo, shape, p, ch, state):
-    ts = [t for t in targets(shape, p.dst) if t in state]
+    ts = [t for t in targets(shape, p.dst) if t in state and (p.id, t) in ch]
     if len(ts) < 2:
         return None
     ins = [repo.subset_t(repo.cl(ch[(p.id, t)]), repo.cl(state[t])) for t in ts]
@@ -339,7 +340,7 @@ def assume_all_or_none(ctx, repo, shape, prs, scenario):
         for i, p in enumerate(prs):
             for q in prs[i + 1:]:
                 for t in targets(shape, p.dst):
-                    if t in targets(shape, q.dst):
+                    if t in targets(shape, q.dst) and (p.id, t) in ch and (q.id, t) in ch:
                         ctx.assume(ch[(p.id, t)] != ch[(q.id, t)])
 
 
@@ -440,9 +441,11 @@ def direct_refs(shape, pr):
 
 # -- symbolic scenarios -----------------------------------------------------------------------
 def scenario_merge_queues(ctx, shape, prs, natoms, monitors, force_merge=False,
-                          reject=None, interfere=None, nfresh=4, pre=None):
-    """Run the real handle_merge_queues from an arbitrary repository state."""
-    refs = queue_refs(shape, prs)
+                          reject=None, interfere=None, nfresh=4, pre=None, drop=()):
+    """Run the real handle_merge_queues from an arbitrary repository state.
+    `drop`: refs that do not exist (e.g. the q/ branch of a destination that was
+    published after the pull requests were queued)."""
+    refs = [r for r in queue_refs(shape, prs) if r not in drop]
     repo = SymRepo(ctx, refs, natoms, nfresh, interfere=interfere)
     repo.reject_refs = reject
     repo.log_cut = True      # only use: commit list inside the PartialMerge message
@@ -725,10 +728,10 @@ def mon_handler_builds(shape, pr, bypass, host):
 
 
 def scenario_handle_pr(ctx, shape, pr, natoms, mode, monitors_of, no_octopus=False, nfresh=10,
-                       with_w=True, pr_status='OPEN', pre=None):
+                       with_w=True, pr_status='OPEN', pre=None, interfere=None):
     import bert_e.workflow.gitwaterflow as gwf
     refs = handler_refs(shape, pr, mode, with_w)
-    repo = SymRepo(ctx, refs, natoms, nfresh)
+    repo = SymRepo(ctx, refs, natoms, nfresh, interfere=interfere)
     repo.log_cut = True        # cut: history-mismatch check and commit listings in messages
     ctx.assume(symgit.status_domain(repo, natoms + nfresh))
     assume_inclusion(ctx, repo, shape)
